@@ -21,7 +21,8 @@ Notation cap_set := (cap_set V).
 
 (* the scalar operation of a kernel; None = the integer zero-divisor branch
    (errs = append(errs, i); dest = 0; continue) *)
-Definition cellf := V -> V -> option V.
+Inductive cres := CV (v : V) | CZero | CPanic.
+Definition cellf := V -> V -> cres.
 
 (* ---- the loop schemas as lists of assignments executed in order ---- *)
 Inductive src := SLen (d : dense) (i : Z)     (* x[i] on a slice of the window's length *)
@@ -55,7 +56,8 @@ Fixpoint run_asgs (g : cellf) (σ : store) (l : list asg) (err : bool) : option 
     match rd σ (a_x a), rd σ (a_y a) with
     | Some x, Some y =>
       match g x y with
-      | Some v =>
+      | CPanic => None
+      | CV v =>
         let v' := if a_acc a
                   then match rdd σ (a_dst a) (a_cap a) (a_k a) with Some o => Some (vadd o v) | None => None end
                   else Some v in
@@ -66,7 +68,7 @@ Fixpoint run_asgs (g : cellf) (σ : store) (l : list asg) (err : bool) : option 
                     | None => None
                     end
         end
-      | None =>
+      | CZero =>
         match wr σ (a_dst a) (a_cap a) (a_kz a) vzero with
         | Some σ' => run_asgs g σ' r true
         | None => None
@@ -75,6 +77,11 @@ Fixpoint run_asgs (g : cellf) (σ : store) (l : list asg) (err : bool) : option 
     | _, _ => None
     end
   end.
+
+(* the generated dispatch drops the error value of some kernels (plain call instead of
+   `err = ...` / `return ...`) *)
+Definition drop_err (r : option (store * bool)) : option (store * bool) :=
+  match r with Some (σ, _) => Some (σ, false) | None => None end.
 
 Definition wlen (d : dense) : Z := d_len d.
 Definition wcap (σ : store) (d : dense) : Z := zlen (get_buf V σ (d_buf d)) - d_off d.
@@ -138,18 +145,20 @@ Definition e_plain (g : cellf) (σ : store) (a b : dense) : option (store * bool
     match hd0 σ a with Some s => run_asgs g σ (k_sv s b) false | None => None end
   else if negb (isS a) && isS b then
     match hd0 σ b with Some s => run_asgs g σ (k_vs a s) false | None => None end
+  else if isS a && isS b then drop_err (run_opt g σ (k_vec σ a b))
   else run_opt g σ (k_vec σ a b).
 
-(* E.<Op>Iter(t, a, b, ait, bit) *)
+(* E.<Op>Iter(t, a, b, ait, bit): every kernel error is dropped *)
 Definition e_iter (g : cellf) (σ : store) (a b : dense) (ai bi : list Z) : option (store * bool) :=
-  if isS a && isS b then run_opt g σ (k_vec σ a b)
+  drop_err
+  (if isS a && isS b then run_opt g σ (k_vec σ a b)
   else if isS a then
     match hd0 σ a with Some s => run_asgs g σ (k_iter_sv s b bi) false | None => None end
   else if isS b then
     match hd0 σ b with Some s => run_asgs g σ (k_iter_vs a s ai) false | None => None end
-  else run_asgs g σ (k_iter a b ai bi) false.
+  else run_asgs g σ (k_iter a b ai bi) false).
 
-Definition gadd : cellf := fun x y => Some (vadd x y).
+Definition gadd : cellf := fun x y => CV (vadd x y).
 
 (* E.<Op>Incr(t, a, b, incr): Some (σ, kernel error) | None = panic; the first bool of the result
    is the refusal "Cannot increment on scalar increment" *)
@@ -157,7 +166,7 @@ Definition e_incr (g : cellf) (σ : store) (a b inc : dense) : option (store * b
   if ((isS a && negb (isS b)) || (isS b && negb (isS a))) && isS inc then (Some (σ, false), true)
   else
     (if isS a && isS b then
-       match run_opt g σ (k_vec σ a b) with
+       match drop_err (run_opt g σ (k_vec σ a b)) with
        | Some (σ1, e1) =>
          if negb (isS inc) then
            (* return e.Add(t, incr, a) *)
@@ -170,10 +179,10 @@ Definition e_incr (g : cellf) (σ : store) (a b inc : dense) : option (store * b
        | None => None
        end
      else if isS a then
-       match hd0 σ a with Some s => run_asgs g σ (k_incr_sv s b inc) false | None => None end
+       drop_err (match hd0 σ a with Some s => run_asgs g σ (k_incr_sv s b inc) false | None => None end)
      else if isS b then
-       match hd0 σ b with Some s => run_asgs g σ (k_incr_vs a s inc) false | None => None end
-     else run_opt g σ (k_incr σ a b inc), false).
+       drop_err (match hd0 σ b with Some s => run_asgs g σ (k_incr_vs a s inc) false | None => None end)
+     else drop_err (run_opt g σ (k_incr σ a b inc)), false).
 
 (* E.<Op>IterIncr *)
 Definition e_iter_incr (g : cellf) (σ : store) (a b inc : dense) (ai bi ii : list Z)
@@ -181,7 +190,7 @@ Definition e_iter_incr (g : cellf) (σ : store) (a b inc : dense) (ai bi ii : li
   if ((isS a && negb (isS b)) || (isS b && negb (isS a))) && isS inc then (Some (σ, false), true)
   else
     (if isS a && isS b then
-       match run_opt g σ (k_vec σ a b) with
+       match drop_err (run_opt g σ (k_vec σ a b)) with
        | Some (σ1, e1) =>
          if negb (isS inc) then
            (* return e.<Op>Iter(t, incr, a, iit, ait)  -- the operation itself, not Add *)
@@ -202,7 +211,7 @@ Definition e_iter_incr (g : cellf) (σ : store) (a b inc : dense) (ai bi ii : li
 (* E.<Op>Recv(t, a, b, recv): always the VV receive kernel *)
 Definition e_recv (g : cellf) (σ : store) (a b recv : dense) : option (store * bool) * bool :=
   if ((isS a && negb (isS b)) || (isS b && negb (isS a))) && isS recv then (Some (σ, false), true)
-  else (run_opt g σ (k_recv σ a b recv), false).
+  else (drop_err (run_opt g σ (k_recv σ a b recv)), false).
 
 (* ---- defaultengine_prep.go ---- *)
 Inductive mode := MSafe | MUnsafe | MReuse (r : nat) | MIncr (r : nat).
@@ -252,6 +261,11 @@ Definition new_dense (σ : store) (sh : list Z) : store * nat * dense :=
 
 (* Clone as used by the engine (retVal = a.Clone()) *)
 Definition clone_of (σ : store) (t : nat) : res (store * nat) := m_clone V σ t.
+
+(* an engine-internal clone: a fresh allocation, never handed to the caller *)
+Definition clone_tmp (σ : store) (d : dense) : store * dense :=
+  let '(σ1, b) := add_buf V σ (window V σ d) in
+  (σ1, mkDense b 0 (d_len d) (d_ap d) (d_old d) false).
 
 Definition finish (r : option (store * bool)) (σ0 : store) (ret : nat) : store * oresult :=
   match r with
@@ -356,7 +370,9 @@ Definition eng_arith_vv (g : cellf) (σ : store) (ta tb : nat) (m : mode) : stor
 Definition scalar_hdr (σ : store) (s : V) : store * dense :=
   let '(σ1, b) := add_buf V σ [s] in (σ1, mkDense b 0 1 scalar_ap None false).
 
-Definition eng_arith_scalar (g : cellf) (σ : store) (tt : nat) (s : V) (leftTensor : bool) (m : mode)
+(* [sh0 = inl s]: a Go scalar (fresh one-element header); [inr ts]: a scalar-shaped TENSOR passed
+   as the scalar (api_arith.go) — scalarToHeader then aliases that tensor's own memory *)
+Definition eng_arith_scalar_h (g : cellf) (σ : store) (tt : nat) (sh0 : V + nat) (leftTensor : bool) (m : mode)
   : store * oresult :=
   match get_t σ tt with
   | None => (σ, OPanicR)
@@ -377,7 +393,13 @@ Definition eng_arith_scalar (g : cellf) (σ : store) (tt : nat) (s : V) (leftTen
       | None => (σ1, OPanicR)
       | Some t =>
         let rd := match ro with Some r => get_t σ1 r | None => None end in
-        let '(σ2, sh) := scalar_hdr σ1 s in
+        let '(σ2, sh) := match sh0 with
+                         | inl s => scalar_hdr σ1 s
+                         | inr ts => match get_t σ1 ts with
+                                     | Some d => (σ1, d)
+                                     | None => scalar_hdr σ1 vzero
+                                     end
+                         end in
         (* prepDataVS / prepDataSV *)
         let useIter :=
           if is_scalar (shp (d_ap t)) then false
@@ -488,10 +510,24 @@ Definition eng_arith_scalar (g : cellf) (σ : store) (tt : nat) (s : V) (leftTen
     end
   end.
 
+Definition eng_arith_scalar (g : cellf) (σ : store) (tt : nat) (s : V) (leftTensor : bool) (m : mode)
+  : store * oresult := eng_arith_scalar_h g σ tt (inl s) leftTensor m.
+
+(* api_arith.go: package-level functions send scalar-SHAPED tensor operands to the Scalar variant *)
+Definition api_arith (g : cellf) (σ : store) (ta tb : nat) (m : mode)
+           (vv : store -> nat -> nat -> mode -> store * oresult) : store * oresult :=
+  match get_t σ ta, get_t σ tb with
+  | Some a, Some b =>
+    if negb (is_scalar (shp (d_ap b))) && negb (is_scalar (shp (d_ap a))) then vv σ ta tb m
+    else if negb (is_scalar (shp (d_ap b))) then eng_arith_scalar_h g σ tb (inr ta) false m
+    else eng_arith_scalar_h g σ ta (inr tb) true m
+  | _, _ => (σ, OPanicR)
+  end.
+
 (* ---- StdEng.<Unary>(a, opts...)  (defaultengine_unary.go) ---- *)
 Definition k_un (u : V -> V) (a : dense) (idx : list Z) : list asg :=
   map (fun i => mkAsg a false i i (SLen a i) (SConst vzero) false) idx.
-Definition gun (u : V -> V) : cellf := fun x _ => Some (u x).
+Definition gun (u : V -> V) : cellf := fun x _ => CV (u x).
 
 Definition eng_unary (u : V -> V) (σ : store) (ta : nat) (m : mode) : store * oresult :=
   match get_t σ ta with
@@ -520,17 +556,14 @@ Definition eng_unary (u : V -> V) (σ : store) (ta : nat) (m : mode) : store * o
           | Some ai =>
             match m, ro, rd with
             | MIncr _, Some r, Some rdn =>
-              match clone_of σ1 ta, all_iter rdn with
-              | Ok (σ2, tc), Some ri =>
-                match get_t σ2 tc with
-                | Some c =>
-                  match run_asgs (gun u) σ2 (k_un u c ai) false with
-                  | Some (σ3, _) => finish (e_iter gadd σ3 rdn c ri ai) σ3 r
-                  | None => (σ1, OPanicR)
-                  end
+              match all_iter rdn with
+              | Some ri =>
+                let '(σ2, c) := clone_tmp σ1 a in
+                match run_asgs (gun u) σ2 (k_un u c ai) false with
+                | Some (σ3, _) => finish (e_iter gadd σ3 rdn c ri ai) σ3 r
                 | None => (σ1, OPanicR)
                 end
-              | _, _ => (σ1, OPanicR)
+              | None => (σ1, OPanicR)
               end
             | MReuse _, Some r, Some rdn =>
               match all_iter rdn with
@@ -556,17 +589,10 @@ Definition eng_unary (u : V -> V) (σ : store) (ta : nat) (m : mode) : store * o
         else
           match m, ro, rd with
           | MIncr _, Some r, Some rdn =>
-            match clone_of σ1 ta with
-            | Ok (σ2, tc) =>
-              match get_t σ2 tc with
-              | Some c =>
-                match run_asgs (gun u) σ2 (k_un u c (idxs (d_len c))) false with
-                | Some (σ3, _) => finish (e_plain gadd σ3 rdn c) σ3 r
-                | None => (σ1, OPanicR)
-                end
-              | None => (σ1, OPanicR)
-              end
-            | _ => (σ1, OPanicR)
+            let '(σ2, c) := clone_tmp σ1 a in
+            match run_asgs (gun u) σ2 (k_un u c (idxs (d_len c))) false with
+            | Some (σ3, _) => finish (e_plain gadd σ3 rdn c) σ3 r
+            | None => (σ1, OPanicR)
             end
           | MReuse _, Some r, Some rdn =>
             match copy_hdr σ1 rdn a with
@@ -626,7 +652,9 @@ Definition e_ret_iter (g : cellf) (σ : store) (a b ret : dense) (ai bi ri : lis
        match hd0 σ b with Some s => run_asgs g σ (k_ret_iter_vs a s ret ai ri) false | None => None end
      else run_asgs g σ (k_ret_iter a b ret ai bi ri) false, false).
 
-Inductive cmode := CSafe | CUnsafe | CReuse (r : nat).
+(* CIncr: WithIncr on an operation that has no increment form — the tensor is used as a reuse
+   tensor (IncrReuse), only the data-order flag is left alone *)
+Inductive cmode := CSafe | CUnsafe | CReuse (r : nat) | CIncr (r : nat).
 
 (* StdEng.<Cmp>(a, b, opts...): [same] = AsSameType(); unsafe forces same *)
 Definition eng_cmp_vv (g : cellf) (σ : store) (ta tb : nat) (same0 : bool) (m : cmode)
@@ -636,6 +664,11 @@ Definition eng_cmp_vv (g : cellf) (σ : store) (ta tb : nat) (same0 : bool) (m :
     if negb (shape_eq (shp (d_ap a)) (shp (d_ap b))) then (σ, OErrR) else
     let hr := match m with
               | CReuse r => match handle_reuse σ r (shp (d_ap a)) (ord (d_ap a)) false with
+                            | Ok σ1 => Ok (σ1, Some r)
+                            | Err => Err
+                            | Panic => Panic
+                            end
+              | CIncr r => match handle_reuse σ r (shp (d_ap a)) (ord (d_ap a)) true with
                             | Ok σ1 => Ok (σ1, Some r)
                             | Err => Err
                             | Panic => Panic
@@ -707,13 +740,18 @@ Definition eng_cmp_vv (g : cellf) (σ : store) (ta tb : nat) (same0 : bool) (m :
   end.
 
 (* StdEng.<Cmp>Scalar(t, s, leftTensor, opts...) with a Go scalar *)
-Definition eng_cmp_scalar (g : cellf) (σ : store) (tt : nat) (s : V) (leftTensor same0 : bool) (m : cmode)
+Definition eng_cmp_scalar_h (g : cellf) (σ : store) (tt : nat) (sh0 : V + nat) (leftTensor same0 : bool) (m : cmode)
   : store * oresult :=
   match get_t σ tt with
   | None => (σ, OPanicR)
   | Some t0 =>
     let hr := match m with
               | CReuse r => match handle_reuse σ r (shp (d_ap t0)) (ord (d_ap t0)) false with
+                            | Ok σ1 => Ok (σ1, Some r)
+                            | Err => Err
+                            | Panic => Panic
+                            end
+              | CIncr r => match handle_reuse σ r (shp (d_ap t0)) (ord (d_ap t0)) true with
                             | Ok σ1 => Ok (σ1, Some r)
                             | Err => Err
                             | Panic => Panic
@@ -730,7 +768,13 @@ Definition eng_cmp_scalar (g : cellf) (σ : store) (tt : nat) (s : V) (leftTenso
         let safe := match m with CUnsafe => false | _ => true end in
         let same := same0 || negb safe in
         let rd0 := match ro with Some r => get_t σ1 r | None => None end in
-        let '(σ2, sh) := scalar_hdr σ1 s in
+        let '(σ2, sh) := match sh0 with
+                         | inl s => scalar_hdr σ1 s
+                         | inr ts => match get_t σ1 ts with
+                                     | Some d => (σ1, d)
+                                     | None => scalar_hdr σ1 vzero
+                                     end
+                         end in
         let useIter :=
           if is_scalar (shp (d_ap t)) then false
           else requires_iterator t
@@ -801,6 +845,18 @@ Definition eng_cmp_scalar (g : cellf) (σ : store) (tt : nat) (s : V) (leftTenso
     end
   end.
 
+Definition eng_cmp_scalar (g : cellf) (σ : store) (tt : nat) (s : V) (leftTensor same0 : bool) (m : cmode)
+  : store * oresult := eng_cmp_scalar_h g σ tt (inl s) leftTensor same0 m.
+
+Definition api_cmp (g : cellf) (σ : store) (ta tb : nat) (same0 : bool) (m : cmode) : store * oresult :=
+  match get_t σ ta, get_t σ tb with
+  | Some a, Some b =>
+    if negb (is_scalar (shp (d_ap b))) && negb (is_scalar (shp (d_ap a))) then eng_cmp_vv g σ ta tb same0 m
+    else if negb (is_scalar (shp (d_ap b))) then eng_cmp_scalar_h g σ tb (inr ta) false same0 m
+    else eng_cmp_scalar_h g σ ta (inr tb) true same0 m
+  | _, _ => (σ, OPanicR)
+  end.
+
 (* ---- StdEng.MinBetween / MaxBetween (tensor-tensor) ---- *)
 Definition eng_minmax_vv (g : cellf) (σ : store) (ta tb : nat) (m : cmode) : store * oresult :=
   match get_t σ ta, get_t σ tb with
@@ -808,6 +864,11 @@ Definition eng_minmax_vv (g : cellf) (σ : store) (ta tb : nat) (m : cmode) : st
     if negb (shape_eq (shp (d_ap a)) (shp (d_ap b))) then (σ, OErrR) else
     let hr := match m with
               | CReuse r => match handle_reuse σ r (shp (d_ap a)) (ord (d_ap a)) false with
+                            | Ok σ1 => Ok (σ1, Some r)
+                            | Err => Err
+                            | Panic => Panic
+                            end
+              | CIncr r => match handle_reuse σ r (shp (d_ap a)) (ord (d_ap a)) true with
                             | Ok σ1 => Ok (σ1, Some r)
                             | Err => Err
                             | Panic => Panic
